@@ -25,7 +25,8 @@ from ..space import binary_shapes
 ID = "C12"
 ENGINE = "eqlmc-E1"
 RULE = ("cases = (tree shape, textual order, base form, quantifier form, caching); all binary shapes with <= n nodes; "
-        "each evaluated twice on valuation-complete data; non-trivial = the tree has at least two nodes")
+        "each evaluated twice on valuation-complete data; non-trivial = the tree has at least two nodes"
+        ' Wave 7: constant branch conditions (alternative(True), refinement(False)); disjunctions as branch conditions, data in which every valuation occurs twice, branches concluding with fewer variables than the base; both variables over one collection.')
 ASSUMPTIONS = ["one conclusion per node, no next_rule, no two refinement siblings (outside the documented vocabulary)",
                "truth values encoded as 1/2 (non-falsy)"]
 BATCH = 20
